@@ -457,7 +457,9 @@ class C05(Base):
             cfg = {"shard_count": rng.choice([1, 1, 2]), "fill_factor": rng.choice([1, 2]), "event_per_zone": rng.choice([1, 2, 3]),
                    "segments_per_merge": rng.choice([2, 2, 3]), "wal": {"flush_each_write": True, "buffered": False}}
             h = H(seed, "C05", cfg, uid_salt=f"C05-{seed}-{i}")
-            h.life(end="shutdown")
+            # every fourth history stores in bursts: several events of one context share a timestamp second
+            # (compaction re-groups events and must not treat (context, second) as an identity)
+            h.life(end="shutdown", tick_ms=rng.choice([0, 200]) if i % 4 == 2 else 1000)
             together = i % 3 == 0      # every third history: all types in every segment, so merge batches hold several types
             ntypes = rng.choice([2, 3]) if together else rng.choice([1, 2, 3])
             types = [f"t{j}" for j in range(ntypes)]
@@ -1168,7 +1170,36 @@ class C10(Base):
             qs.append(("expect_error", {"type": "q", "offset": 1}, "offset-without-limit"))
             return qs
         for i in range(C10.budgets[tier]["histories"]):
+            if i % 10 == 3:
+                yield C10.deep_pages(seed, i)
+                continue
             yield query_history("C10", seed, i, mk, schema=C10_SCHEMA, payload=c10_payload, shards=(2, 3, 1))
+
+    @staticmethod
+    def deep_pages(seed, i):
+        """Fixed-shape history: a sort key that grows with ingestion, two-row zones, ~50 rows flushed, then pages deep
+        into the order (OFFSET far beyond 10 x LIMIT). The coverage of a top-k pre-selection must be sized by
+        LIMIT + OFFSET. (Own feature tag: on this data shape the unchanged planner is exact, so the open finding
+        about the heuristic pre-selection does not apply and its signature does not cover these reads.)"""
+        rng = rnd("C10deep", seed, i)
+        cfg = {"shard_count": rng.choice([1, 2]), "fill_factor": 2, "event_per_zone": 2, "segments_per_merge": 3,
+               "wal": {"flush_each_write": True, "buffered": False}}
+        h = H(seed, "C10", cfg, uid_salt=f"C10-{seed}-{i}")
+        h.life(end="shutdown")
+        h.define("q", C10_SCHEMA)
+        ctxs = ["c0"] if cfg["shard_count"] == 1 else ["c0", "c1", "c2"]
+        n = rng.randrange(44, 56)
+        for _ in range(n):
+            k = h.new_k()
+            p = c10_payload(k, rng)
+            h.store("q", rng.choice(ctxs), p, k=k)
+        h.flush()
+        h.step({"op": "barrier", "meta": {"kind": "checkpoint", "tag": "deep"}})
+        for m in rng.sample([0, 3, 11, 17, 23, 31, 41, 44, 200], 6):
+            for desc in (False, True):
+                h.query({"type": "q", "order": "k", "desc": desc, "limit": 2, "offset": m}, kind="ordered", tag="deep",
+                        feat="deep-page:" + ("desc" if desc else "asc"))
+        return h.done()
 
 
 
